@@ -207,7 +207,7 @@ def run(ctx):
         behaviours.append(dict(cfg=dict(script=sc["id"], body=sc["body"], mode=cfg["mode"]), steps=steps, started=False))
     rep.note("%d scripts; %d macro-steps exported (TLC %.0fs); %d edge-covering behaviours (%.0fs)" % (len(cat), nedges, t1 - t0, len(behaviours), time.time() - t1))
     nall = len(behaviours)
-    cap = int(os.environ.get("VERIF_CORO_CAP", "0") or 0) or (3000 if ctx.quick else 15000)
+    cap = int(os.environ.get("VERIF_CORO_CAP", "0") or 0) or (6000 if ctx.quick else 40000)
     if nall > cap:
         groups = collections.defaultdict(list)
         for b in behaviours:
